@@ -12,6 +12,7 @@ from engine.util import own_nodes, calls_with_nodes, where
 RULES = {
     "R-19.1": "every in-place write to a B-tree node (elts/children) and every call of a node-mutating method has an OWNED receiver (self of a mutating method, result of maybe_cow_child/_get_node/clone/constructor); values read from X.children[...] are shared",
     "R-19.2": "every BTree method that changes the tree first passes _check_mutable_and_park() and cows the root; _check_mutable_and_park raises when frozen; freezing is one-way; cloning requires a frozen original",
+    "R-19.4": "cursor parking protocol: every mutation parks every registered cursor; next()/prev() pass _maybe_unpark() before reading their position; a parked cursor with a remembered key re-seeks it, the key's presence being tested by identity with None (keys may be falsy), never by truthiness",
     "R-19.3": "BTreeDict/BTreeSet change the tree only through insert_element / delete_key / delete_exact",
 }
 
@@ -225,11 +226,58 @@ def run(model, rep, tier):
                 if isinstance(n, ast.Call) and isinstance(n.func, ast.Attribute) and src(n.func.value) == "self.root" and n.func.attr in req_self:
                     rep.bad("R-19.3", f.qualname, where(f, n), f"wrapper calls the node mutator root.{n.func.attr} directly, bypassing the freeze check", stmt=src(n.func))
             rep.ok("R-19.3", f.qualname, where(f, f.node), "touches the tree only through BTree's public operations", stmt="wrapper", nontrivial=False)
+    # ------------------------------------------------------------ R-19.4
+    cur = model.cls("dns.btree.Cursor")
+    init = cur.methods["__init__"]
+    optional = sorted({n.target.attr for n in ast.walk(init.node) if isinstance(n, ast.AnnAssign) and isinstance(n.target, ast.Attribute) and "None" in src(n.annotation)})
+    rep.floor("R-19.4-optional", len(optional), 2)
+    n_tests = 0
+    for name, f in sorted(cur.methods.items()):
+        for n in ast.walk(f.node):
+            tests = []
+            if isinstance(n, (ast.If, ast.While, ast.IfExp, ast.Assert)):
+                tests.append(n.test)
+            for t in tests:
+                for a in atoms(normalise_compare(t)):
+                    if a[0].startswith("self.") and a[0][5:] in optional:
+                        n_tests += 1
+                        rep.check(a[1] in ("is", "is not") and a[2] == "None", "R-19.4", f.qualname, where(f, n), f"`{src(t)[:50]}` tests presence by identity",
+                                  f"`{src(t)[:50]}` tests the Optional `{a[0]}` by {a[1]}: a legitimate falsy value (key 0, empty name, empty string) is taken for 'absent', so a cursor parked on it is not re-sought after a mutation",
+                                  stmt=f"presence {a[0]} in {name}")
+    rep.floor("R-19.4-presence", n_tests, 8)
+    mu = cur.methods["_maybe_unpark"]
+    cfg = CFG(mu.node, implicit_exc=False)
+    seeks = [(n, c) for (n, c) in calls_with_nodes(cfg) if src(c.func) == "self.seek"]
+    if len(seeks) != 1:
+        rep.blind("R-19.4", mu.qualname, where(mu, mu.node), f"{len(seeks)} re-seek calls in _maybe_unpark", stmt="reseek")
+    else:
+        sn, sc = seeks[0]
+        doms = []
+        for t in cfg.nodes:
+            if t.kind == "test" and isinstance(t.ast, ast.If):
+                if cfg.edge_dominated(sn.id, {(t.id, "t")}):
+                    doms += atoms(normalise_compare(t.ast.test))
+        rep.check(sorted(doms) == sorted([("self.parked", "truthy", ""), ("self.parking_key", "is not", "None")]) and src(sc.args[0]) == "self.parking_key", "R-19.4", mu.qualname, where(mu, sc),
+                  "re-seeks the remembered key exactly when parked and a key is remembered", f"the re-seek is conditioned on {doms} (expected: parked, parking_key is not None) or seeks something other than the remembered key", stmt="reseek")
+        resets = [n for n in cfg.nodes if isinstance(n.ast, ast.Assign) and src(n.ast) == "self.parked = False"]
+        rep.check(bool(resets), "R-19.4", mu.qualname, where(mu, mu.node), "unparks", "never clears self.parked", stmt="unpark-clears")
+    for name in ("next", "prev"):
+        f = cur.methods[name]
+        cfg = CFG(f.node, implicit_exc=False)
+        unp = [n.id for (n, c) in calls_with_nodes(cfg) if src(c.func) == "self._maybe_unpark"]
+        reads = [n for n in cfg.stmts() if n.id not in unp and any(isinstance(e, ast.Attribute) and src(e.value) == "self" and e.attr in ("current_node", "current_index", "parents") for e in own_nodes(n.ast))]
+        rep.check(bool(unp) and bool(reads) and all(cfg.dominated_by_set(r.id, unp) for r in reads), "R-19.4", f.qualname, where(f, f.node), f"all {len(reads)} position reads come after _maybe_unpark()",
+                  "the cursor position is read without passing _maybe_unpark(): after a mutation the stale node/index is used", stmt="unpark-first")
+    cp = model.func("dns.btree.BTree._check_mutable_and_park")
+    loops = [n for n in ast.walk(cp.node) if isinstance(n, ast.For) and src(n.iter) == "self.cursors" and any(isinstance(c, ast.Call) and src(c.func) == f"{src(n.target)}.park" for c in ast.walk(n))]
+    rep.check(len(loops) == 1, "R-19.4", cp.qualname, where(cp, cp.node), "parks every registered cursor", "no longer parks every registered cursor before a mutation", stmt="park-all")
+    pk = cur.methods["park"]
+    rep.check(any(isinstance(n, ast.Assign) and src(n) == "self.parked = True" for n in ast.walk(pk.node)), "R-19.4", pk.qualname, where(pk, pk.node), "park() sets parked", "park() does not set parked", stmt="park-sets")
     rep.meta["explanation"] = (
         "Ownership typestate for B-tree nodes: a fixpoint computes which _Node methods/parameters require an owned receiver (they write elts/children "
         "directly or transitively); every write and every such call in dns/btree.py is then checked with reaching definitions to have an owned receiver "
         "(copy-on-write result, fresh node, or precondition of a mutating method). Plus freeze-protocol shape rules. Sorted-map conformance, occupancy "
-        "bounds and cursor behaviour are NOT decided.")
+        "bounds and cursor results are NOT decided (only the park/unpark protocol shape, R-19.4).")
 
 
 def _param_never_rebound(f, p):
@@ -360,6 +408,12 @@ def _root_owned(cfg, at):
 
 
 WITNESSES = [
+    {"id": "c19-parking-key-truthiness", "rule": "R-19.4", "file": "dns/btree.py", "expect": "fires",
+     "old": "            if self.parking_key is not None:", "new": "            if self.parking_key:"},
+    {"id": "c19-next-without-unpark", "rule": "R-19.4", "file": "dns/btree.py", "expect": "fires",
+     "old": "        \"\"\"Get the next element, or return None if on the right boundary.\"\"\"\n        self._maybe_unpark()\n", "new": "        \"\"\"Get the next element, or return None if on the right boundary.\"\"\"\n"},
+    {"id": "c19-mutation-does-not-park", "rule": "R-19.4", "file": "dns/btree.py", "expect": "fires",
+     "old": "        for cursor in self.cursors:\n            cursor.park()\n", "new": ""},
     {"id": "c19-steal-shared-left", "rule": "R-19.1", "file": "dns/btree.py", "expect": "fires",
      "old": "            if not left.is_minimal():\n                left = parent.maybe_cow_child(index - 1)\n", "new": "            if not left.is_minimal():\n"},
     {"id": "c19-steal-shared-right", "rule": "R-19.1", "file": "dns/btree.py", "expect": "fires",
